@@ -56,6 +56,33 @@ def run(tier):
         cases.append(("n%da" % d, "fn main() -> i32\n{\n\treturn: " + "(" * d + "1" + ")" * d + "\n}\n", "nesting"))
         cases.append(("n%db" % d, "fn main()\n{\n" + "{" * d + "}" * d + "\n}\n", "nesting"))
         cases.append(("n%dc" % d, "fn main() -> i32\n{\n\tvar x: i32 = 1;\n\treturn: " + "-(" * d + "x" + ")" * d + "\n}\n", "nesting"))
+    # the inputs of the other properties' checks (small samples): whatever they are meant to test, nothing may crash
+    from . import c06, c07, c08, c11
+    from .. import gen_bodies as GB, gen_c08, gen_cfg
+    bodies, nex6, _ = c06.cases("quick", ck.seed)
+    sel = [b for k, b in bodies[:nex6] if GB.size(b) <= (4 if tier == "quick" else 5)] + [b for k, b in bodies[nex6:nex6 + (300 if tier == "quick" else 20000)]]
+    for i, b in enumerate(sel): cases.append(("y%d" % i, GB.program(b), "syntax-bodies"))
+    r11 = random.Random(ck.seed + 11)
+    for i in range(150 if tier == "quick" else 6000):
+        names, kinds, decls, edges, order = c11.graph_module(r11)
+        cases.append(("g%d" % i, c11.render(names, kinds, decls, edges, r11.sample(order, len(order)))[0], "declaration-graphs"))
+    c7 = c07.cases(tier); r7 = random.Random(ck.seed + 7)
+    for i, c in enumerate(r7.sample(c7, min(len(c7), 600 if tier == "quick" else 5000))): cases.append(("k%d" % i, c[1] + "fn main()\n{\n}\n", "typing-gate"))
+    for i, (name, tmpl, _) in enumerate(c08.INVALID + c08.VALID): cases.append(("u%d" % i, tmpl.format(t="i32"), "mutability-rules"))
+    g8 = gen_c08.generate(); r8 = random.Random(ck.seed + 8)
+    for i, (cid, src) in enumerate(r8.sample(g8, min(len(g8), 300 if tier == "quick" else 1784)) + gen_c08.random_programs(100 if tier == "quick" else 5000, ck.seed)):
+        cases.append(("z%d" % i, src, "mutability-programs"))
+    rc = random.Random(ck.seed + 3)
+    for i in range(100 if tier == "quick" else 5000):
+        cases.append(("f%d" % i, gen_cfg.source(gen_cfg.gen(rc, depth=rc.choice([1, 2, 3, 4]))), "control-flow-skeletons"))
+    # two and three modules that use the same builtins (state that survives from one module to the next)
+    k2 = 0
+    for b1 in ('print!("a\\n");', "abort!();", 'var s = format!("x", 1);', 'print!(12345i64, "\\n");'):
+        for b2 in ('print!("b\\n");', "abort!();", 'print!(7u8, "\\n");'):
+            m0 = 'import "m1.pn";\nfn main() -> u8\n{\n\t%s\n\thelper();\n\treturn: 0\n}\n' % b1
+            m1 = 'pub fn helper()\n{\n\t%s\n}\n' % b2
+            for order in (("m0.pn", m0, "m1.pn", m1), ("m1.pn", m1, "m0.pn", m0)):
+                cases.append(("j%d" % k2, "//// module %s\n%s//// module %s\n%s" % order, "modules-sharing-builtins")); k2 += 1
     impl = C.run_harness("ir", [(c[0], c[1]) for c in cases], ck.work + "/crash", timeout=3000)
     stats = collections.Counter(); kinds = collections.Counter()
     for cid, src, kind in cases:
@@ -70,7 +97,7 @@ def run(tier):
         ck.violation("tie-broken:proof", "Props/C02.v no longer checks", getattr(ck, "proof_output", "")[-2000:])
     ck.coverage.update(
         evaluations=len(cases), distinct_nontrivial=len({c[1] for c in cases}), exhaustive_part=ntok,
-        rule="crash stream through lex..generate_ir in isolated workers: mutated corpus (tests/samples, examples, core, vendor), generated programs with 1-3 injected faults, token soup, CRLF variants, ALL token sequences up to length %d over a %d-token alphabet (exhaustive), 2-3 module sets, nesting depth 32/128/256; observables ok | errors (non-empty) | errors (empty) | panic@site | signal | timeout; anything but the first two is a violation keyed by panic site or signal; distinct = distinct inputs" % (L, len(TOKENS)),
+        rule="crash stream through lex..generate_ir in isolated workers: mutated corpus (tests/samples, examples, core, vendor), generated programs with 1-3 injected faults, token soup, CRLF variants, ALL token sequences up to length %d over a %d-token alphabet (exhaustive), 2-3 module sets, modules that share builtins in both file orders, nesting depth 32/128/256, and samples of the inputs of the other checks (all small statement trees of the syntax check, dependency graphs of constants and structures with cycles, the typing-gate programs, the mutability programs, control-flow skeletons); observables ok | errors (non-empty) | errors (empty) | panic@site | signal | timeout; anything but the first two is a violation keyed by panic site or signal; distinct = distinct inputs" % (L, len(TOKENS)),
         outcomes=dict(stats), input_kinds=dict(kinds),
         samples=[dict(kind=cases[0][2], source=cases[0][1][:300], outcome=impl.get(cases[0][0], ["?"])[0][:100])])
     return ck.finish()
